@@ -68,6 +68,7 @@ type SessionOpts struct {
 	Rows     int      // default 24
 	Env      []string
 	NoListen bool // do not add --listen (Post/Get/Sync unavailable)
+	StdinPipe bool // stdin is a pipe that stays open: Lines/Stdin are written first, more input through Session.Feed
 	NoSync   bool // with --listen: do not run the first Sync (its marker is written by execute-silent, that is through the
 	// shell: a session whose shell cannot be started would never pass it); the start is complete when GET answers
 }
@@ -110,6 +111,23 @@ type Session struct {
 	nonce   string
 	exited  atomic.Bool
 	relOnce sync.Once
+	feed    *os.File // write end of the stdin pipe (SessionOpts.StdinPipe)
+}
+
+// Feed appends bytes to the candidate input of a session started with StdinPipe.
+func (s *Session) Feed(b []byte) error {
+	if s.feed == nil {
+		return errors.New("session has no stdin pipe")
+	}
+	_, err := s.feed.Write(b)
+	return err
+}
+
+// CloseFeed ends the input of a session started with StdinPipe.
+func (s *Session) CloseFeed() {
+	if s.feed != nil {
+		s.feed.Close()
+	}
 }
 
 func openPty(cols, rows int) (master *os.File, slave *os.File, err error) {
@@ -256,10 +274,24 @@ func startOnce(c *Ctx, o SessionOpts) (*Session, error, bool) {
 			}
 			data = b.Bytes()
 		}
-		p := filepath.Join(dir, "stdin")
-		os.WriteFile(p, data, 0600)
-		inFile, _ = os.Open(p)
-		cmd.Stdin = inFile
+		if o.StdinPipe {
+			ir, iw, perr := os.Pipe()
+			if perr != nil {
+				master.Close()
+				slave.Close()
+				os.RemoveAll(dir)
+				return nil, perr, false
+			}
+			inFile = ir
+			s.feed = iw
+			cmd.Stdin = ir
+			go func(d []byte) { iw.Write(d) }(data)
+		} else {
+			p := filepath.Join(dir, "stdin")
+			os.WriteFile(p, data, 0600)
+			inFile, _ = os.Open(p)
+			cmd.Stdin = inFile
+		}
 	}
 	cmd.Stderr = slave
 	pr, pw, _ := os.Pipe()
@@ -274,6 +306,7 @@ func startOnce(c *Ctx, o SessionOpts) (*Session, error, bool) {
 		inFile.Close()
 	}
 	if err != nil {
+		s.CloseFeed()
 		master.Close()
 		pr.Close()
 		os.RemoveAll(dir)
@@ -449,6 +482,7 @@ func (s *Session) Wait(timeout time.Duration) (string, int, bool) {
 }
 
 func (s *Session) Close() {
+	s.CloseFeed()
 	s.Kill()
 	select {
 	case <-s.done:
